@@ -48,6 +48,9 @@ type ObjSpec struct {
 	Minor    uint64  `json:"minor"`
 	Xattrs   []Xattr `json:"xattrs"`
 	LinkTo   int     `json:"linkto"` // index of the member whose inode this one shares, -1 none
+	// a second, unstaged name of the same inode next to the object (st_nlink > 1 although no
+	// other member shares it)
+	ExtraLink bool `json:"extralink"`
 }
 
 type Clause struct {
@@ -76,6 +79,10 @@ type MemberSpec struct {
 	Minor   uint64  `json:"minoropt"`
 	Targ    B       `json:"targ"`
 	Src     string  `json:"src"` // "" abs stageroot rel
+	// SrcOf k > 0: the source is the path where member k-1's object lives (its name inside
+	// the build root, or its own src= location); Src then only chooses how the path is
+	// written: $$stageroot/..., absolute, or relative to the working directory
+	SrcOf int `json:"srcof"`
 	Skip    bool    `json:"skip"`
 	Obj     ObjSpec `json:"obj"`
 }
@@ -336,7 +343,22 @@ func srcLocation(m MemberSpec, idx int, root, tmp string) (option string, real s
 	return "", root + string(m.Name)
 }
 
-func lineText(m MemberSpec, idx int, root, tmp string) string {
+// how the src= value is written for a member whose source is another member's path
+func srcOptionFor(form, real, root, tmp string) string {
+	switch form {
+	case "stageroot":
+		if strings.HasPrefix(real, root+"/") {
+			return "$$stageroot" + real[len(root):]
+		}
+	case "rel":
+		if strings.HasPrefix(real, tmp+"/") {
+			return real[len(tmp)+1:]
+		}
+	}
+	return real
+}
+
+func lineText(m MemberSpec, idx int, root, tmp string, paths []string) string {
 	fields := []string{m.LType, string(m.Name)}
 	if t, ok := modText(m.Mod); ok {
 		fields = append(fields, "mod="+t)
@@ -359,6 +381,9 @@ func lineText(m MemberSpec, idx int, root, tmp string) string {
 	}
 	if m.Src != "" {
 		opt, _ := srcLocation(m, idx, root, tmp)
+		if m.SrcOf > 0 {
+			opt = srcOptionFor(m.Src, paths[idx], root, tmp)
+		}
 		fields = append(fields, "src="+opt)
 	}
 	if m.Skip {
@@ -588,9 +613,21 @@ func Run(in Input) (c *common.Case) {
 	for i, m := range ms {
 		_, paths[i] = srcLocation(m, i, root, tmp)
 	}
+	alias := make([]bool, len(ms)) // the source is another member's object: nothing to create
+	for i, m := range ms {
+		if j := m.SrcOf - 1; j >= 0 && j < len(ms) && j != i && ms[j].SrcOf == 0 && m.Src != "" {
+			paths[i] = paths[j]
+			alias[i] = true
+		} else {
+			ms[i].SrcOf = 0
+		}
+	}
 	for pass := 0; pass < 2; pass++ {
 		for i, m := range ms {
-			follower := m.Obj.LinkTo >= 0 && m.Obj.LinkTo < len(ms) && m.Obj.LinkTo != i && m.Obj.Kind == "reg"
+			if alias[i] {
+				continue
+			}
+			follower := m.Obj.LinkTo >= 0 && m.Obj.LinkTo < len(ms) && m.Obj.LinkTo != i && m.Obj.Kind == "reg" && !alias[m.Obj.LinkTo]
 			if (pass == 1) != follower {
 				continue
 			}
@@ -602,12 +639,23 @@ func Run(in Input) (c *common.Case) {
 				o.LinkTo = -1
 			}
 			createObject(paths[i], o, first)
+			if o.ExtraLink && o.Kind == "reg" && !follower {
+				// in a directory nothing stages (the built-in scripts glob /usr/local/* etc.)
+				dir := tmp + "/ext"
+				if strings.HasPrefix(paths[i], root+"/") {
+					dir = root + "/.c07links"
+				}
+				must(os.MkdirAll(dir, 0755))
+				extra := fmt.Sprintf("%s/l%d", dir, i)
+				os.Remove(extra)
+				must(os.Link(paths[i], extra))
+			}
 		}
 	}
 	// times last (creating children changes directory times); deepest paths first is not
 	// needed because utimensat does not touch the parent
 	for i, m := range ms {
-		if m.Obj.Kind != "absent" && m.Obj.Kind != "notdir" {
+		if m.Obj.Kind != "absent" && m.Obj.Kind != "notdir" && !alias[i] {
 			_ = lutimes(paths[i], m.Obj.Mtime, m.Obj.Nsec)
 		}
 	}
@@ -626,7 +674,7 @@ func Run(in Input) (c *common.Case) {
 				contents = append(contents, "obj "+string(m.Name)+" d41d8cd98f00b204e9800998ecf8427e 1")
 			}
 		case "line":
-			lines = append(lines, lineText(m, i, root, tmp))
+			lines = append(lines, lineText(m, i, root, tmp, paths))
 		}
 	}
 	pkg := root + "/var/db/pkg/sys-apps/c07pkg-1.0"
@@ -855,6 +903,12 @@ func classify(m MemberSpec, o objMeas) []string {
 	}
 	if m.Src != "" {
 		add("src=" + m.Src)
+		if m.SrcOf > 0 {
+			add("src-of-member")
+			if o.Nlink > 1 {
+				add("src-multiply-linked")
+			}
+		}
 	}
 	if len(m.Name) > 100 {
 		add("name>100")
